@@ -14,11 +14,11 @@ def shamir_laws(wd, rep, q, nmax, slack=0, timeout=1500):
     return vlib.tlc(wd, "ShamirLaws", c, timeout=timeout)
 
 
-def histories(wd, n, t, additive=False, eveny=False, maxops=2, indices=(0, 1)):
+def histories(wd, n, t, additive=False, eveny=False, maxops=2, indices=(0, 1), kinds=("sign", "reconstruct"), subset_refresh=False):
     """All complete histories of KeyLife.tla for this configuration (TLC), as dicts."""
     consts = {"Q": 7, "XS": set(range(1, n + 1)), "T": t, "Additive": additive, "EvenY": eveny,
               "FreshPolys": "<- " + FRESH[t], "RefPolys": "<- " + REF.get(t, "RefT1"), "Indices": set(indices),
-              "MaxOps": maxops, "EmitHist": True}
+              "MaxOps": maxops, "Kinds": set(kinds), "SubsetRefresh": subset_refresh, "EmitHist": True}
     c = vlib.cfg(consts, spec="Spec",
                  invariants=["AllVersionsConsistent", "RefreshKeepsKey", "DeriveMovesKey", "EvenKeys", "ProbeSound", "Emit"])
     r = vlib.tlc(wd, "KeyLife", c, workers=1, timeout=1500)
